@@ -311,12 +311,13 @@ type FaultRes struct {
 }
 
 type job struct {
-	Fault *FaultJob         `json:"fault,omitempty"`
-	Args  []string          `json:"args"`
-	Env   map[string]string `json:"env,omitempty"`
-	Cwd   string            `json:"cwd,omitempty"`
-	Reps  int               `json:"reps,omitempty"`
-	Reuse bool              `json:"reuse,omitempty"`
+	Fault     *FaultJob         `json:"fault,omitempty"`
+	Args      []string          `json:"args"`
+	Env       map[string]string `json:"env,omitempty"`
+	Cwd       string            `json:"cwd,omitempty"`
+	Reps      int               `json:"reps,omitempty"`
+	Reuse     bool              `json:"reuse,omitempty"`
+	Cancelled bool              `json:"cancelled,omitempty"`
 }
 
 type response struct {
@@ -332,15 +333,15 @@ type Server struct {
 	// ExtraEnv is added to the environment of the server process (set before the first job)
 	ExtraEnv []string
 	Primed   int
-	hr     string
-	Dir    string
-	cmd    *exec.Cmd
-	in     io.WriteCloser
-	out    *bufio.Reader
-	errBuf *bytes.Buffer
-	joblog *os.File
-	Jobs   int
-	Deaths int
+	hr       string
+	Dir      string
+	cmd      *exec.Cmd
+	in       io.WriteCloser
+	out      *bufio.Reader
+	errBuf   *bytes.Buffer
+	joblog   *os.File
+	Jobs     int
+	Deaths   int
 	// LastGor: goroutines alive in the server once the last job was over (0: the hook does not report it)
 	LastGor int
 }
@@ -522,6 +523,19 @@ func (s *Server) App(args []string, env map[string]string, reps int) []Result {
 // itself keeps values taken from variables in the flag objects of an App value.
 func (s *Server) AppReused(args []string) Result {
 	resp, died := s.roundTrip(job{Args: args, Cwd: s.Dir, Reps: 1, Reuse: true}, 120*time.Second)
+	if died != "" {
+		return Result{Panic: died, Exit: -1}
+	}
+	if resp.Bad != "" || len(resp.Runs) == 0 {
+		return Result{Panic: "verif: bad job: " + resp.Bad, Exit: -1}
+	}
+	return resp.Runs[0]
+}
+
+// AppCancelled runs the production app once in-process through RunContext with a context that is already
+// cancelled (a caller whose own request was abandoned).
+func (s *Server) AppCancelled(args []string) Result {
+	resp, died := s.roundTrip(job{Args: args, Cwd: s.Dir, Reps: 1, Cancelled: true}, 120*time.Second)
 	if died != "" {
 		return Result{Panic: died, Exit: -1}
 	}
